@@ -8,6 +8,12 @@ fn main() {
         println!("{} of 20 failed", fails);
         return;
     }
+    if std::env::args().nth(1).as_deref() == Some("phantom-weight") {
+        let mut fails = 0;
+        for _ in 0..20 { if let Some(failure) = phantom_weight_scenario(20) { fails += 1; if fails == 1 { println!("{}", failure.message); } } }
+        println!("{} of 20 failed", fails);
+        return;
+    }
     let path = std::env::args().nth(1).unwrap();
     let n: usize = std::env::args().nth(2).and_then(|s| s.parse().ok()).unwrap_or(50);
     let replay = read_replay(&path).unwrap();
